@@ -84,7 +84,8 @@ DStart == \* the new thread reaches its first dec.top
   /\ UNCHANGED <<ring, dpos, chunkLo, chunkHi, calls, reachedEnd, encErr, errRing, sstate, stopc, loaded, consumer, apc, aleft, aout, astate0, popped, cb, lock>>
 
 \* frame_at_index(dpos): number of decode calls needed and whether one of them fails
-Need == IF dpos >= chunkLo /\ dpos < chunkHi THEN 0 ELSE ((dpos - chunkHi) \div Pk) + 1
+\* (an index at or past the end of the audio is answered with silence without touching the decoder)
+Need == IF dpos >= Len0 \/ (dpos >= chunkLo /\ dpos < chunkHi) THEN 0 ELSE ((dpos - chunkHi) \div Pk) + 1
 Fails == FailAt # 0 /\ FailAt > calls /\ FailAt <= calls + Need
 
 \* one loop iteration from dec.top to the next yield point
@@ -106,7 +107,7 @@ DBody ==
      ELSE /\ calls' = calls + Need
           /\ IF Need > 0 THEN chunkLo' = chunkHi + (Need - 1) * Pk /\ chunkHi' = chunkHi + Need * Pk
              ELSE UNCHANGED <<chunkLo, chunkHi>>
-          /\ ring' = Append(ring, dpos)
+          /\ ring' = Append(ring, IF dpos >= Len0 THEN -1 ELSE dpos)
           /\ dpos' = dpos + 1
           /\ UNCHANGED <<encErr, errRing>>
           /\ IF dpos + 1 >= Len0
